@@ -831,20 +831,25 @@ func c13UntrustedNames(c *Ctx) {
 		}
 		sf := p.SSAFunc(fr.Obj)
 		okAll, seen := true, 0
-		for _, call := range callsIn(sf) {
-			callee := staticCalleeObj(call.Call)
-			if callee == nil {
-				continue
-			}
-			if calleeIs(callee, "private/pkg/storage", "CopyReader") || (callee.Pkg() != nil && callee.Pkg().Path() == fr.Pkg.PkgPath && callee.Name() == "copyZipFile") {
-				seen++
-				pathArg := call.Call.Args[len(call.Call.Args)-1]
-				from := dependsOnCall(pathArg, func(cc *ssa.CallCommon) bool {
-					cf := staticCalleeObj(cc)
-					return cf != nil && cf.Name() == "unmapArchivePath"
-				})
-				if !from {
-					okAll = false
+		for _, af := range archiveReaderFuncs(sf) {
+			for _, call := range callsIn(af) {
+				callee := staticCalleeObj(call.Call)
+				if callee == nil {
+					continue
+				}
+				if calleeIs(callee, "private/pkg/storage", "CopyReader") || (callee.Pkg() != nil && callee.Pkg().Path() == fr.Pkg.PkgPath && callee.Name() == "copyZipFile") {
+					if af.Name() == "copyZipFile" {
+						continue // the copy helper itself: its path parameter is what the reader handed it
+					}
+					seen++
+					pathArg := call.Call.Args[len(call.Call.Args)-1]
+					from := dependsOnCall(pathArg, func(cc *ssa.CallCommon) bool {
+						cf := staticCalleeObj(cc)
+						return cf != nil && cf.Name() == "unmapArchivePath"
+					})
+					if !from {
+						okAll = false
+					}
 				}
 			}
 		}
